@@ -462,6 +462,7 @@ sim_main (int argc, char **argv, const world_t *w)
 	}
 	fprintf (sim_proto, "B %llu\n", (unsigned long long)sc.seed);
 	fflush (sim_proto);
+	fprintf (stderr, "PXSIM-RUN %llu\n", (unsigned long long)sc.seed);
 	memset (&r, 0, sizeof r);
 	w->execute (&sc, property, &r);
 	print_result (sc.seed, &r);
@@ -497,6 +498,7 @@ sim_main (int argc, char **argv, const world_t *w)
 	    w->generate (seed, tier, property, &sc);
 	    fprintf (sim_proto, "B %llu\n", (unsigned long long)seed);
 	    fflush (sim_proto);
+	    fprintf (stderr, "PXSIM-RUN %llu\n", (unsigned long long)seed);
 	    memset (&r, 0, sizeof r);
 	    w->execute (&sc, property, &r);
 	    print_result (seed, &r);
